@@ -6,7 +6,7 @@ CONSTANT Tier
 Quick == Tier = "quick"
 \* see harness/purity.go for the source trees: shA..shBad are main files in ONE directory sharing lib.tsh -> util.tsh (globals, top-level code) by path,
 \* mut1/mut2 are one and the same path whose imported file is rewritten (two versions) before the call
-Progs == <<"plain", "dirA", "dirB", "stdmany", "shA", "shB", "shC", "shD", "shBad", "shBadFn", "mut1", "mut2", "strdefA", "strdefB", "strdefC", "nlA", "nlB">>
+Progs == <<"plain", "dirA", "dirB", "stdmany", "shA", "shB", "shC", "shD", "shBad", "shBadFn", "mut1", "mut2", "strdefA", "strdefB", "strdefC", "nlA", "nlB", "silent0", "silent1", "silent3">>
 Core == {"plain", "dirA", "dirB", "stdmany"}
 Targets == <<"bash", "batch">>
 Modes == IF Quick THEN <<"same", "newobj", "newproc">> ELSE <<"same", "newobj", "newproc", "relocated", "relocatedproc">>
